@@ -491,6 +491,8 @@ fn build_cases(tier: Tier) -> Vec<(String, bool, Vec<Case>)> {
     levels.push(("U_P default_programs".into(), false, up));
     let upp: Vec<Case> = progs::plain_programs(cap).iter().map(|p| cases::upstream_case("U_P/plain", p)).collect();
     levels.push(("U_P plain_programs".into(), false, upp));
+    let ups: Vec<Case> = progs::shape_programs().iter().map(|p| cases::upstream_case("U_P/shapes", p)).collect();
+    levels.push(("U_P shape_programs".into(), false, ups));
     // doc placements
     let docs = cases::hostile_docs();
     let bases = cases::doc_bases();
